@@ -469,6 +469,15 @@ def _(c):
     return _ro(c, build)
 
 
+@conic("ro-two-balls")
+def _(c):
+    # a set with TWO second-order cones: the counterpart carries the dual cone of each; both heads need their bound
+    def build(c, m, x, z):
+        m.st(((x * z).sum() + x[0] <= c.fresh_real("e")).forall(rsome.norm(z, 2) <= c.fresh_real("r"),
+                                                                  rsome.norm(z[:1] - 0.5, 2) <= c.fresh_real("q")))
+    return _ro(c, build)
+
+
 @conic("ro-ball-exp")
 def _(c):
     def build(c, m, x, z):
